@@ -64,6 +64,27 @@ func c12CLI(cc *run.Case) {
 		return
 	}
 	r := cc.R
+	// A source without a single asset while the target holds some, no names
+	// given: every asset of the target fails (the source does not have it), and
+	// the failure must reach the exit status whatever the number of workers.
+	if root, err := os.MkdirTemp("", "verif-c12cli-"); err == nil {
+		srcDir, tgtDir := filepath.Join(root, "src"), filepath.Join(root, "tgt")
+		os.Mkdir(srcDir, 0o700)
+		os.Mkdir(tgtDir, 0o700)
+		tgt := asset.NewFileSystemRepository(tgtDir)
+		for _, n := range []string{"aa", "bb"} {
+			tgt.Append(n, helper.SliceToChan([]*asset.Snapshot{snapAgo(9, r), snapAgo(8, r)}))
+		}
+		args := []string{"-source-name", "filesystem", "-source-config", srcDir, "-target-name", "filesystem", "-target-config", tgtDir, "-days", "20", "-workers", strconv.Itoa(r.Pick(1, 2, 4, 8)), "-delay", "0"}
+		cc.Desc(map[string]any{"args": args, "source": "empty directory", "target": "assets aa, bb"})
+		out, runErr := exec.Command(bin, args...).CombinedOutput()
+		cc.Count("cli_runs", 1)
+		os.RemoveAll(root)
+		if runErr == nil {
+			cc.Viol("", "indicator-sync (command line): the source holds none of the target's assets, yet the tool exits with status 0 (no failure reported)", map[string]any{"args": args, "output": clipStr(string(out), 800)})
+			return
+		}
+	}
 	for rep := 0; rep < 6; rep++ {
 		root, err := os.MkdirTemp("", "verif-c12cli-")
 		if err != nil {
